@@ -793,6 +793,7 @@ bool Annotator::assignAllIds()
 {
     auto model = pFunc()->mModel.lock();
     if (model != nullptr) {
+        pFunc()->update();
         size_t initialSize = pFunc()->idCount();
         pFunc()->doSetAllAutomaticIds();
         return pFunc()->idCount() > initialSize;
@@ -821,6 +822,7 @@ bool Annotator::assignIds(CellmlElementType type)
         return false;
     }
 
+    pFunc()->update();
     size_t initialSize = pFunc()->idCount();
 
     switch (type) {
@@ -1418,7 +1420,13 @@ size_t Annotator::itemCount(const std::string &id)
 void Annotator::AnnotatorImpl::doUpdateComponentHash(const ComponentPtr &component, std::string &idsString)
 {
     for (size_t i = 0; i < component->variableCount(); ++i) {
-        idsString += "v=" + std::to_string(i) + component->variable(i)->id();
+        auto variable = component->variable(i);
+        idsString += "v=" + std::to_string(i) + variable->id();
+        for (size_t j = 0; j < variable->equivalentVariableCount(); ++j) {
+            auto equivalentVariable = variable->equivalentVariable(j);
+            idsString += "m=" + std::to_string(j) + Variable::equivalenceMappingId(variable, equivalentVariable)
+                         + "x=" + Variable::equivalenceConnectionId(variable, equivalentVariable);
+        }
     }
 
     for (size_t i = 0; i < component->resetCount(); ++i) {
